@@ -1,7 +1,7 @@
 (* Extraction of the executable model for the correspondence check.
    ExtrOcamlBasic only: bool, option, unit, list, prod, sumbool map to the OCaml
    natives; N, positive, Z, nat stay as extracted inductives; no Extract Constant. *)
-From SP Require Import Model.Impl Model.Spec Model.Typing Model.Template Model.Scanner Model.Ansi Model.Cli.
+From SP Require Import Model.Impl Model.Spec Model.Typing Model.Template Model.Scanner Model.Ansi Model.Cli Model.Syntax.
 Require Extraction.
 Require ExtrOcamlBasic.
 Extraction Language OCaml.
@@ -33,9 +33,11 @@ Definition x_format_st (E : Env) (t : template) (x : str) (c : caches) : outcome
   run_st (impl_format E t x) c.
 
 Definition x_cli_main := cli_main.
+Definition x_print_block := print_block.
+Definition x_printable (ops : list op) : bool := forallb printable ops.
 
 Extraction "model.ml"
-  x_cli_main x_strip_str x_format_st
+  x_print_block x_printable x_cli_main x_strip_str x_format_st
   x_template_parse x_template_parse_with_debug x_parse_template x_process_arg
   x_infer x_well_typed x_last_sep x_format_pure x_spec_format x_fwi_pure x_spec_fwi
   x_run_pure_impl x_run_st_impl x_spec_run x_apply_range_str x_select_str empty_caches
